@@ -160,7 +160,7 @@ class Disc1D:
             raise KappaTruthiness(clsname, val, summ["kprec"])
         elif kind == "expr":
             try:
-                attrs["kprec"] = const_eval(val, {})
+                attrs["kprec"] = const_eval(getattr(val, "expr", val), {})
             except AnalysisError:
                 raise AnalysisError("xnum.%s: kappa is not a literal constant" % clsname)
         if "limiter" in summ:
